@@ -730,4 +730,48 @@ def rule_futures(ctx):
                         lambda i: "fresh-futures" in i.construct, 1)
 
 
-RULES = [rule_classstate, rule_futures, rule_threadkey, rule_fresh, rule_ownrun]
+def rule_memofactory(ctx):
+    """(seed C05_8) A function memoised with `functools.lru_cache` / `cache` keeps whatever it returns for the life of
+    the process.  If that is an instance of an optimizer class whose searches leave results on the instance (best
+    path, best score — computed by the carry-over analysis), every later query with the same options is answered by
+    an object that remembers earlier contractions: it returns the earlier network's path when that was cheaper."""
+    r = RuleResult("C16-MEMOFACTORY", "no memoised factory hands out a result-carrying optimizer", 1)
+    n_memo = 0
+    bad = []
+    for m in ctx.p.modules.values():
+        for f in m.all_funcs:
+            decos = [C.unparse(d) for d in f.node.decorator_list]
+            if not any("lru_cache" in d or d.endswith("cache") or "functools.cache" in d for d in decos):
+                continue
+            n_memo += 1
+            for n in walk_local(f.node):
+                if not (isinstance(n, ast.Return) and n.value is not None):
+                    continue
+                exprs = [n.value]
+                if isinstance(n.value, ast.Name):
+                    exprs = ctx.r.local_assignments(f).get(n.value.id, [])
+                for e in exprs:
+                    if not isinstance(e, ast.Call):
+                        continue
+                    res = ctx.p.resolve_expr_static(f.module, e.func, f)
+                    if isinstance(res, ClassInfo):
+                        carried, _all = is_result_carrying(ctx, res)
+                        if carried:
+                            bad.append((f, n, res, carried))
+    if bad:
+        for f, n, cls, carried in bad:
+            r.violation(ctx.key(f, "C16-MEMOFACTORY"), C.loc(f, n), f"{f.qual} is memoised and returns a {cls.name}, whose searches leave {carried} on the "
+                        "instance: a later query with the same options is answered by the object that served an earlier contraction — it "
+                        "keeps that contraction's best path whenever the new one is not cheaper")
+    else:
+        r.ok("cotengra::C16-MEMOFACTORY", "cotengra", f"{n_memo} memoised functions: none returns an instance of a result-carrying optimizer")
+        if not getattr(ctx, "_is_positive_example", False):
+            src = ctx.p.sources["cotengra/__init__.py"]
+            r.note(C.positive_example(
+                ctx, rule_memofactory,
+                [("cotengra/__init__.py", None, src + "\n\n@functools.lru_cache(None)\ndef _c16_memofactory_positive_example(opts):\n    return RandomGreedyOptimizer(**dict(opts))\n")],
+                "_c16_memofactory_positive_example"))
+    return r
+
+
+RULES = [rule_memofactory, rule_classstate, rule_futures, rule_threadkey, rule_fresh, rule_ownrun]
